@@ -752,26 +752,30 @@ func TestC20Hazard(t *testing.T) {
 			w, _ := doubles.Reencode(req)
 			f.tp.Events().OnRequestReceived(chid, w.(datatransfer.Request))
 			f.tp.Events().OnTransferInitiated(chid)
-			c.HangCheck("C20", "simultaneous-block-reports-same-channel", 15*time.Second, func() {
-				idx := int64(0)
-				for round := 0; round < 2000; round++ {
-					var wg sync.WaitGroup
-					start := make(chan struct{})
-					n := 2 + round%4
-					for g := 0; g < n; g++ {
-						wg.Add(1)
-						i := idx + int64(g) + 1
-						go func() {
-							defer wg.Done()
-							<-start
-							f.tp.Events().OnDataQueued(chid, dummyLink, 10, i, true)
-						}()
+			idx := int64(0)
+			for chunk := 0; chunk < 20; chunk++ { // (in chunks, so that the time limit judges a little work, whatever the machine load)
+				if !c.HangCheck("C20", "simultaneous-block-reports-same-channel", 40*time.Second, func() {
+					for round := 0; round < 100; round++ {
+						var wg sync.WaitGroup
+						start := make(chan struct{})
+						n := 2 + round%4
+						for g := 0; g < n; g++ {
+							wg.Add(1)
+							i := idx + int64(g) + 1
+							go func() {
+								defer wg.Done()
+								<-start
+								f.tp.Events().OnDataQueued(chid, dummyLink, 10, i, true)
+							}()
+						}
+						idx += int64(n)
+						close(start)
+						wg.Wait()
 					}
-					idx += int64(n)
-					close(start)
-					wg.Wait()
+				}) {
+					break
 				}
-			})
+			}
 			c.HangCheck("C20", "manager-stop", 20*time.Second, func() { f.m.Stop(bg) })
 			c.Count("hazard.simultaneous-reports-same-channel", 2000)
 		case 7:
